@@ -5,19 +5,21 @@
    the same way; the document's libraries (geometries with their primitives, controllers,
    lights) are a table shared by the cases of a file. *)
 From Coq Require Import List Bool ZArith NArith.
-From PC Require Import Base.Py Base.Mat Gen.Transforms Model.Transforms Model.Traverse.
+From PC Require Import Base.Py Base.Mat Gen.Transforms Gen.Bound Model.Transforms Model.Traverse.
 Import ListNotations.
 
 Definition zsnode := snode Z.
 (* the matrix of a <node> from its transform children (tag, floats), as Node.load builds it *)
 Definition nm (ts : list (nat * list Z)) : matZ := node_matrix zops (map (fun tf => TLoaded (fst tf) (snd tf)) ts).
 
-(* primitive: material symbol (0 = no material attribute), the vertex source, the normal source *)
-Definition prim := (N * list (vec3 Z) * option (list (vec3 Z)))%type.
+(* primitive: binding class (0 BoundTriangleSet, 1 BoundPolylist / BoundPolygons, 2 BoundLineSet), material
+   symbol (0 = no material attribute), the vertex source, the normal source *)
+Definition prim := (nat * N * list (vec3 Z) * option (list (vec3 Z)))%type.
 Record lib := Lib {
   geoms : list (N * list prim);
   ctrls : list (N * (nat * list Z * N));      (* 0 skin / 1 morph, bind_shape_matrix, source geometry *)
-  lights : list (N * nat) }.                  (* 0 point, 1 directional, 2 spot, 3 ambient *)
+  lights : list (N * nat);                    (* 0 point, 1 directional, 2 spot, 3 ambient *)
+  cams : list (N * nat) }.                    (* 0 perspective, 1 orthographic *)
 
 Fixpoint lookup {A} (d : A) (l : list (N * A)) (k : N) : A :=
   match l with [] => d | (k', v) :: r => if N.eqb k k' then v else lookup d r k end.
@@ -26,32 +28,32 @@ Definition zn (n : nat) : Z := Z.of_nat n.
 Definition flat3 (v : vec3 Z) : list Z := let '(a, b, c) := v in [a; b; c].
 Definition optvec (o : option (vec3 Z)) : list Z := match o with None => [0%Z] | Some v => 1%Z :: flat3 v end.
 
-Definition prim_flat (M : matZ) (b : binds) (p : prim) : list Z :=
-  let '(sym, verts, normals) := p in
-  [match material_of b sym with Some m => Z.of_N m | None => 0%Z end; zn (length verts)]
-  ++ flat_map (fun v => flat3 (bound_vertex zops M v)) verts
+Definition prim_flat (ctrl : bool) (M : matZ) (b : binds) (p : prim) : list Z :=
+  let '(pk, sym, verts, normals) := p in
+  [match material_of ctrl pk b sym with Some m => Z.of_N m | None => 0%Z end; zn (length verts)]
+  ++ flat_map (fun v => flat3 (bound_vertex zops pk M v)) verts
   ++ match normals with
      | None => [(-1)%Z]
-     | Some ns => zn (length ns) :: flat_map (fun n => flat3 (bound_normal zops M n)) ns
+     | Some ns => zn (length ns) :: flat_map (fun n => flat3 (bound_normal zops pk M n)) ns
      end.
-Definition prims_flat (M : matZ) (b : binds) (ps : list prim) : list Z :=
-  zn (length ps) :: flat_map (prim_flat M b) ps.
+Definition prims_flat (ctrl : bool) (M : matZ) (b : binds) (ps : list prim) : list Z :=
+  zn (length ps) :: flat_map (prim_flat ctrl M b) ps.
 
 Definition geom_flat (L : lib) (o : bound Z) : list Z :=
   let '(_, target, M, b) := o in
-  Z.of_N target :: mat_to_list M ++ prims_flat M b (lookup [] (geoms L) target).
+  Z.of_N target :: mat_to_list M ++ prims_flat false M b (lookup [] (geoms L) target).
 Definition ctrl_flat (L : lib) (o : bound Z) : list Z :=
   let '(_, target, M, b) := o in
   let '(kind, bsm, g) := lookup (1%nat, [], 0%N) (ctrls L) target in
   Z.of_N target :: mat_to_list M ++
   match kind with
-  | 0%nat => let Mg := zmmul M (zmat_of_list bsm) in
-             1%Z :: mat_to_list Mg ++ prims_flat Mg b (lookup [] (geoms L) g)
+  | 0%nat => let Mg := skin_matrix zops M (zmat_of_list bsm) in
+             1%Z :: mat_to_list Mg ++ prims_flat true Mg b (lookup [] (geoms L) g)
   | _ => [0%Z]
   end.
-Definition cam_flat (o : bound Z) : list Z :=
+Definition cam_flat (L : lib) (o : bound Z) : list Z :=
   let '(_, target, M, _) := o in
-  let '(pos, dir, up) := bound_camera zops M in
+  let '(pos, dir, up) := bound_camera zops (lookup 0%nat (cams L) target) M in
   Z.of_N target :: mat_to_list M ++ flat3 pos ++ flat3 dir ++ flat3 up.
 Definition light_flat (L : lib) (o : bound Z) : list Z :=
   let '(_, target, M, _) := o in
@@ -72,7 +74,7 @@ Definition case_ok (L : lib) (c : case) : bool :=
   let '(roots, og, oc, ok, ol) := c in
   all_eqb (map (geom_flat L) (scene_objects zops geometry_node_kind roots)) og &&
   all_eqb (map (ctrl_flat L) (scene_objects zops controller_node_kind roots)) oc &&
-  all_eqb (map cam_flat (scene_objects zops camera_node_kind roots)) ok &&
+  all_eqb (map (cam_flat L) (scene_objects zops camera_node_kind roots)) ok &&
   all_eqb (map (light_flat L) (scene_objects zops light_node_kind roots)) ol.
 
 Fixpoint mismatches_from (L : lib) (i : nat) (cs : list case) : list nat :=
